@@ -8,6 +8,9 @@ judges every gradient component the code returns. Three engines, one case kind e
 ``crit``  ``create_lbfgs_arguments(likelihood, [data])`` -> ``f(vec) = (value, grad)`` — exactly the
           objective ``GaussianProcessOptimizeModel.fit`` hands to L-BFGS-B. For parameter vectors
           inside the internal box: every component of ``grad`` vs differences of the criterion;
+          (run with ``verbose`` False and True, the log records being captured; parameter points
+          include exact special internal values: the box bounds, 0.0 — Box-Cox lambda 0 — and 1.0;
+          Box-Cox transforms also with ``initial_boxcox_lambda`` 0 / 1 / -0.5);
           ``value`` vs ``add_regularizer_to_criterion`` evaluated alone with the same (plain
           numpy) parameters and vs "criterion + sum of regularisers of the encoded parameters"
           assembled by the harness from ``param_encoding_pairs()``.
@@ -181,8 +184,8 @@ def preload():
 CELLS = [(a, w, m, t) for a in (0, 1) for w in (0, 1) for m in ("scalar", "zero") for t in ("id", "boxcox")]
 SIZES = {
     # crit cases (x points each), acq cases (4 acquisition functions x xpoints each), ops cases
-    "quick": {"crit": 288, "crit_points": 5, "acq": 160, "acq_mcmc": 64, "acq_x": 5, "ops": 320},
-    "thorough": {"crit": 2400, "crit_points": 5, "acq": 1600, "acq_mcmc": 640, "acq_x": 5, "ops": 3200},
+    "quick": {"crit": 288, "crit_points": 6, "acq": 160, "acq_mcmc": 64, "acq_x": 5, "ops": 320},
+    "thorough": {"crit": 2400, "crit_points": 6, "acq": 1600, "acq_mcmc": 640, "acq_x": 5, "ops": 3200},
 }
 
 
@@ -202,6 +205,10 @@ def cases(tier, seed):
                 "kind": "crit", "seed": base + i, "n": int(rng.integers(2, 26)), "d": int(rng.integers(1, 6)),
                 "ard": ard, "warp": warp, "mean": mean, "transform": tr, "points": sz["crit_points"],
                 "enc": "positive" if rng.random() < 0.15 else "logarithm",
+                # documented option of create_lbfgs_arguments / OptimizationConfig.verbose / opt_verbose
+                "verbose": bool((i // len(CELLS)) % 2),
+                # BoxCoxTargetTransform(initial_boxcox_lambda=...): None = default 0.5
+                "boxcox_init": [None, 0.0, None, 1.0, None, 0.0, -0.5, None][(i // len(CELLS)) % 8],
             }
         )
     for i in range(sz["acq"]):
@@ -247,6 +254,18 @@ def floors(tier):
     for c in CELLS:
         f["decided:crit_point:" + _cell_name(*c)] = 50 * m
     f["decided:crit_point"] = 900 * m
+    f["decided:crit_point:verbose_true"] = 400 * m
+    f["decided:crit_point:verbose_false"] = 400 * m
+    f["reach:verbose_log_records"] = 1000 * m
+    # gradient components judged at exact special internal values (bounds, 0.0, 1.0), per parameter kind
+    for pc, k in (("noise_variance", 300), ("covariance_scale", 300), ("inverse_bandwidths", 600), ("mean_value", 80),
+                  ("boxcox_lambda", 200), ("power_a", 350), ("power_b", 350)):
+        f["decided:crit_special:" + pc] = k * m
+    f["decided:crit_special:boxcox_lambda:zero"] = 40 * m  # lambda == 0.0 exactly, free parameter
+    f["decided:crit_special:boxcox_lambda:fixed_zero"] = 35 * m  # lambda == 0.0, fixed (n < 5, initial value 0)
+    f["decided:crit_special:boxcox_lambda:one"] = 25 * m
+    f["decided:crit_special:boxcox_lambda:lower_bound"] = 40 * m
+    f["decided:crit_special:boxcox_lambda:upper_bound"] = 35 * m
     f["decided:crit_value"] = 2000 * m
     f["decided:crit_value_incl_priors"] = 1000 * m
     f["decided:crit_grad_component"] = 6500 * m
@@ -349,7 +368,7 @@ def _warp_ranges(rng, d):
     return out
 
 
-def _make_likelihood(rng, d, ard, warp, mean, transform, enc):
+def _make_likelihood(rng, d, ard, warp, mean, transform, enc, boxcox_init=None):
     from syne_tune.optimizer.schedulers.searchers.bayesopt.gpautograd.kernel import Matern52
     from syne_tune.optimizer.schedulers.searchers.bayesopt.gpautograd.warping import Warping, WarpedKernel
     from syne_tune.optimizer.schedulers.searchers.bayesopt.gpautograd.mean import ScalarMeanFunction, ZeroMeanFunction
@@ -366,7 +385,7 @@ def _make_likelihood(rng, d, ard, warp, mean, transform, enc):
     lik = GaussianProcessMarginalLikelihood(
         kernel=kernel,
         mean=ScalarMeanFunction() if mean == "scalar" else ZeroMeanFunction(),
-        target_transform=BoxCoxTargetTransform() if transform == "boxcox" else None,
+        target_transform=BoxCoxTargetTransform(initial_boxcox_lambda=boxcox_init) if transform == "boxcox" else None,
         encoding_type=enc,
     )
     return lik, ranges
@@ -387,6 +406,12 @@ def _sample_internal(rng, enc, size, regime):
         elif regime == "moderate":
             c = float(np.reshape(enc.init_val_int, (-1,))[0])
             u = np.clip(c + 0.2 * (hi - lo) * rng.uniform(-1, 1, size=size), lo, hi)
+        elif regime == "special":
+            # exact special values inside the box: the bounds, internal 0.0 (Box-Cox lambda 0 = log
+            # transform; exp-encoded parameter 1.0), 1.0 (Box-Cox lambda 1 = shift)
+            cands = [lo, hi] + [v for v in (0.0, 0.0, 1.0) if lo <= v <= hi]
+            pick = rng.integers(0, len(cands) + 1, size=size)
+            u = np.array([cands[k] if k < len(cands) else u[j] for j, k in enumerate(pick)], dtype=float)
         return u
     if hi is not None:  # 'positive' (softplus) encoding: lower bound enforced by the encoding
         lo_v = max(float(lo_e if lo_e is not None else getattr(enc, "lower", 0.0)), 1e-12) * 1.01
@@ -397,10 +422,33 @@ def _sample_internal(rng, enc, size, regime):
             v = np.exp(rng.uniform(math.log(lo_v), math.log(hi_v), size=size))
             if regime == "edge":
                 v = np.where(rng.random(size) < 0.25, hi_v, v)
+            if regime == "special":
+                pick = rng.random(size)
+                v = np.where(pick < 0.3, hi_v, np.where((pick < 0.6) & (lo_v < 1.0 < hi_v), 1.0, v))
         return np.array([float(enc.decode(float(x), "v")) for x in v])
     # unconstrained (scalar mean value)
     w = 1.0 if regime == "moderate" else 3.0
-    return rng.uniform(-w, w, size=size)
+    u = rng.uniform(-w, w, size=size)
+    if regime == "special":
+        pick = rng.integers(0, 4, size=size)
+        u = np.where(pick == 0, 0.0, np.where(pick == 1, 1.0, np.where(pick == 2, -1.0, u)))
+    return u
+
+
+def _special_kind(enc, v):
+    """Is the internal value ``v`` of a parameter component an exact special value?"""
+    lo, hi = enc.constraints_internal
+    if lo is not None and hi is not None and float(lo) == float(hi):
+        return "fixed_zero" if v == 0.0 else "fixed"
+    if lo is not None and v == float(lo):
+        return "lower_bound"
+    if hi is not None and v == float(hi):
+        return "upper_bound"
+    if v == 0.0:
+        return "zero"
+    if v == 1.0:
+        return "one"
+    return None
 
 
 class _Crit:
@@ -472,11 +520,41 @@ def _run_crit(spec, o):
     cell = _cell_name(spec["ard"], spec["warp"], spec["mean"], spec["transform"])
     enc_type = spec.get("enc", "logarithm")
     X, y, dup = _gen_data(rng, n, d, positive=spec["transform"] == "boxcox")
-    lik, ranges = _make_likelihood(rng, d, spec["ard"], spec["warp"], spec["mean"], spec["transform"], enc_type)
+    verbose = bool(spec.get("verbose", False))
+    lik, ranges = _make_likelihood(rng, d, spec["ard"], spec["warp"], spec["mean"], spec["transform"], enc_type, spec.get("boxcox_init"))
     lik.reset_params(np.random.RandomState(spec["seed"] % (2**31)))  # what GaussianProcessRegression.__init__ does
     data = {"features": X, "targets": y}
     lik.on_fit_start(data)  # what GaussianProcessOptimizeModel.fit does first
-    f, pdict = create_lbfgs_arguments(criterion=lik, crit_args=[data])
+    f0_, pdict = create_lbfgs_arguments(criterion=lik, crit_args=[data], verbose=verbose)
+    log_records = []
+
+    def f(v_):
+        """The SciPy objective; with verbose on, the log records it emits are captured (logging is
+        silenced globally by the harness otherwise)."""
+        if not verbose:
+            return f0_(v_)
+        import logging as _lg
+        from syne_tune.optimizer.schedulers.searchers.bayesopt.gpautograd import optimization_utils as _ou
+
+        class _H(_lg.Handler):
+            def emit(self, record):
+                log_records.append(record.getMessage()[:200])
+
+        h_, lvl, dis = _H(), _ou.logger.level, _lg.root.manager.disable
+        _ou.logger.addHandler(h_)
+        _ou.logger.setLevel(_lg.INFO)
+        _lg.disable(_lg.NOTSET)
+        prop = _ou.logger.propagate
+        _ou.logger.propagate = False
+        try:
+            return f0_(v_)
+        finally:
+            _ou.logger.propagate = prop
+            _lg.disable(dis)
+            _ou.logger.setLevel(lvl)
+            _ou.logger.removeHandler(h_)
+
+    vtag = ":verbose" if verbose else ""
     crit = _Crit(lik, data, pdict)
     encs = {p.name: e for p, e in lik.param_encoding_pairs()}
     assert set(encs) == set(crit.names), (sorted(encs), crit.names)
@@ -489,7 +567,7 @@ def _run_crit(spec, o):
     decided_any, obs_sig = False, []
     npoints = len(vecs) if vecs else spec["points"]
     for pi in range(npoints):
-        regime = ["uniform", "uniform", "edge", "moderate", "uniform"][pi % 5]
+        regime = ["uniform", "special", "edge", "moderate", "uniform", "special"][pi % 6]
         if vecs:
             vec = np.array(vecs[pi], dtype=float)
             regime = "given"
@@ -558,6 +636,10 @@ def _run_crit(spec, o):
                 continue
             verdict, tol = _judge(gi, dres, atol, CRIT_RTOL)
             pc = _pclass(crit.comp_name(i))
+            sk = _special_kind(encs[crit.comp_name(i)], float(vec[i]))
+            if sk and verdict != "inconclusive":
+                o.count("decided:crit_special:" + pc)
+                o.count(f"decided:crit_special:{pc}:{sk}")
             if verdict == "inconclusive":
                 n_inc += 1
                 o.count("inconclusive_component:" + pc)
@@ -573,8 +655,8 @@ def _run_crit(spec, o):
                 o.count("decided:crit_grad_component")
                 o.violate(
                     "criterion_gradient",
-                    f"crit_grad_mismatch:{pc}:{_ratio_class(gi, dres.value)}",
-                    {"cell": cell, "enc": enc_type, "param": crit.comp_name(i), "component": i, "grad": gi, "richardson": dres.value,
+                    f"crit_grad_mismatch:{pc}:{_ratio_class(gi, dres.value)}{(':at_' + sk) if sk else ''}{vtag}",
+                    {"cell": cell, "verbose": verbose, "special_value": sk, "enc": enc_type, "param": crit.comp_name(i), "component": i, "grad": gi, "richardson": dres.value,
                      "err_estimate": dres.err, "tol": tol, "h": dres.h, "value": val, "n": n, "d": d, "vec": vec},
                 )
         if stencil_jitter:
@@ -582,6 +664,7 @@ def _run_crit(spec, o):
         if n_inc == 0:
             o.count("decided:crit_point:" + cell)
             o.count("decided:crit_point")
+            o.count("decided:crit_point:verbose_" + ("true" if verbose else "false"))
             obs_sig.append((regime, "all"))
         elif n_held + n_viol > 0:
             o.count("partly_decided:crit_point:" + cell)
@@ -605,7 +688,10 @@ def _run_crit(spec, o):
         except Exception as e:  # noqa: BLE001
             o.violate("criterion_gradient", _raised_mech(e, enc_type, v2), {"cell": cell, "enc": enc_type, "vec": v2, "error": repr(e)[:300]})
     o.count("crit_evaluations", crit.evals)
-    o.set_sig(["crit", cell, enc_type, min(n // 5, 4), d, ranges, sorted(set(obs_sig))], nontrivial=decided_any)
+    if verbose:
+        o.count("reach:verbose_log_records", len(log_records))
+        o.count("verbose_log_records_with_criterion", sum(1 for r_ in log_records if "criterion" in r_))
+    o.set_sig(["crit", cell, enc_type, verbose, spec.get("boxcox_init"), min(n // 5, 4), d, ranges, sorted(set(obs_sig))], nontrivial=decided_any)
     o.sample = {"kind": "crit", "cell": cell, "enc": enc_type, "n": n, "d": d, "warp_ranges": ranges, "n_params": nvec,
                 "points": obs_sig, "param_names": [_pclass(k) for k in crit.names]}
 
